@@ -185,6 +185,34 @@ NEEDS7 = {
  "C18A": ("src/fixed_priority/fully_nonpreemptive.rs: the search over offsets stops once a job of the analysed task completes no later than the next release (the refuted CAN-analysis assumption), via a Cell shared between two sites", "at least two jobs of the analysed task in the busy window, every earlier one completing by the next release, a later one strictly worse (0.28 % of schedulable systems)"),
 }
 
+NEEDS8 = {
+ "C01A": ("src/fixed_priority/fully_nonpreemptive.rs: the offset scan is capped with .take(number_arrivals(L) - 1) although step_offsets already yields A = 0 (drops the last job of the busy window)", "a busy window with at least two jobs of the analysed task and the very last one the worst (6 of 29 450 grid systems; witness (3,9) under (3,6),(1,9), blocking 1)"),
+ "C02A": ("src/edf/limited_preemptive.rs: the offset search space skips interfering tasks with a deadline <= the analysed task's ('their steps saturate at A = 0')", "an interferer with a shorter deadline, a response time beyond D - D_o and one of its steps just past D - D_o that is no step of another task"),
+ "C03A": ("src/arrival/sporadic.rs steps_iter: an extra 'do not report delta = 1 twice' filter removes the genuine step at delta = 2", "a Sporadic with jitter = T - 1 (mod T) whose offset A = 1 is the worst FIFO offset (C=60, T=100, J=99: 79 instead of 119)"),
+ "C05A": ("src/ros2/bw.rs max_self_interfering_instances: arrivals counted in [0, t_a) instead of [0, t_a]", "bw analysis, at least two instances of the analysed callback in one busy window and the later offset dominating (jitter or burst on the analysed callback)"),
+ "C06A": ("src/fixed_priority/limited_preemptive.rs: the scan over offsets stops once L - (A+1) <= the running maximum (sound bound is L - A)", "a bursty curve of the analysed task and a later job whose bound exceeds all earlier ones by exactly 1 and ends exactly at the end of the busy window"),
+ "C07A": ("src/fixed_point.rs search_with_offset: while-loop rewritten as loop with early exit 'bound >= limit => give up' (should be >)", "a divergence limit exactly equal to a required fixed point > 1: Err instead of Ok(limit)"),
+ "C08A": ("src/fixed_point.rs search_with_offset: convergence test == instead of <=", "non-zero offset, demand w(1) > 0 covered exactly at the offset (least solution 0) and a workload with w(0) < w(1): the search re-evaluates the workload at r = 0 (panic in debug, bogus Err in release)"),
+ "C09A": ("src/supply/periodic.rs provided_service rewritten with division/remainder; the rest < slack branch loses its min(budget, ...) clamp", "budget < period/2 and a window strictly inside a flat segment of the bound (delta >= period, delta mod period < period - 2*budget): too small / underflow"),
+ "C10A": ("src/arrival/arrival_curve_prefix.rs from_arrival_bound_until: steps recorded with delta < horizon instead of <=", "a recorded model with a step exactly at the horizon (T*k + 1 - J == horizon): one arrival too few at the horizon and in every repetition"),
+ "C11A": ("src/arrival/arrival_curve_prefix.rs steps_iter: per-cycle filter drops the step at exactly the horizon in every cycle but the first", "a prefix object with a step exactly at its horizon, examined beyond 2*horizon"),
+ "C12A": ("src/arrival/curve.rs from_arrival_bound: positive_distance_seen updated before the keep-condition (the first non-zero distance is cut off)", "a source with a burst of three or more simultaneous arrivals and a job limit ending inside the burst: the derived vector is all zeros and every query divides by zero"),
+ "C13A": ("src/arrival/curve.rs extrapolate_with_bound: guard len + 2 == njobs became <= njobs (a bound meant for a later element is stored as the next distance)", "an explicit extrapolate_with_bound call whose njobs exceeds prefix length + 2: fewer arrivals than the prefix admits"),
+ "C14A": ("src/wcet/curve.rs extrapolate_next: splits iterate 0..(n/2) instead of 0..=(n/2) (drops the equal split)", "a front-loaded cost prefix of odd length queried at an even job count whose best split is m + m (10,11,12: 33 instead of 24 at n = 6)"),
+ "C15A": ("src/arrival/poisson.rs number_arrivals: 'termination guard' stops at ceil(mean + 12 sqrt(mean))", "a sparse process (mean below ~2) with a tiny epsilon (mean 0.01: below 1.7e-7): the cap cuts in before the quantile"),
+ "C16A": ("src/demand/{aggregate,slice}.rs service_needed_by_n_jobs_per_component: fast path 'max_jobs >= delta => unrestricted demand'", "a bursty component with more arrivals than time units in the window and delta <= max_jobs < its job count"),
+ "C17A": ("src/fixed_priority/fully_preemptive.rs: fast path returns the busy-window length L when there are no interfering tasks", "an analysed task without interference whose busy window spans several of its own jobs not all at offset 0 (jitter, C + J > T): adding a tiny task LOWERS the bound"),
+ "C18A": ("src/fifo/rta.rs: the scan over offsets stops as soon as the per-offset bound drops below the running maximum ('backlog drains')", "a jittered/bursty task whose second release in the busy window is the worst case with a step of another task in between where the bound dips ((5,20,J15),(1,3): 6 instead of 7) - unsafe, hence not attained"),
+ "C19A": ("PLACEHOLDER19", "PLACEHOLDER19N"),
+ "C04A": ("PLACEHOLDER04", "PLACEHOLDER04N"),
+ "C20A": ("src/arrival/curve.rs: number_arrivals multiplies full windows by jobs_in_largest_known_distance() instead of the deleted jobs_within_largest_known_distance() ('duplicate helper')", "a plain Curve whose delta-min vector ends in a plateau ([0,10,10]) queried at/after the largest distance; as an end-of-chain callback in bw::rta_subchain the debug-only step cross-check panics while release returns Ok"),
+}
+
+def rounds8():
+    for key, val in sorted(NEEDS8.items()):
+        name = f"{key[:3]}-P"
+        yield key, val, f"/tmp/wt/out8-{key[:3]}", [f"/tmp/seedres/R8{key}.recheck.txt", f"/tmp/seedres/R8{key}.quick.txt"], f"/tmp/seedres/R8{key}.quick.txt", name, 8
+
 def rounds7():
     for key, val in sorted(NEEDS7.items()):
         name = f"{key[:3]}-{'M' if key[3] == 'A' else 'N'}"
@@ -209,7 +237,7 @@ def main():
     root = "/verif/seeded"
     os.makedirs(root, exist_ok=True)
     index = []
-    for key, (change, needs), out, cands, basefile, name, rnd in list(rounds()) + list(rounds4()) + list(rounds5()) + list(rounds6()) + list(rounds7()):
+    for key, (change, needs), out, cands, basefile, name, rnd in list(rounds()) + list(rounds4()) + list(rounds5()) + list(rounds6()) + list(rounds7()) + list(rounds8()):
         pid, v = key[:3], key[3]
         res = None
         # the newest confirmation run wins
@@ -234,7 +262,7 @@ def main():
                     if m:
                         per[m.group(1)] = line
         # final regression pass with the committed machinery (own check + previous catchers)
-        for fin in [f"/tmp/seedres/FINAL3/{name}.txt", f"/tmp/seedres/FINAL4/{name}.txt"] if rnd < 7 else [f"/tmp/seedres/FINAL4/{name}.txt"]:
+        for fin in [f"/tmp/seedres/FINAL3/{name}.txt", f"/tmp/seedres/FINAL4/{name}.txt"] if rnd < 7 else ([f"/tmp/seedres/FINAL4/{name}.txt"] if rnd < 8 else []):
           if os.path.exists(fin):
             for line in open(fin).read().splitlines():
                 m = re.match(r"(C\d\d) exit=", line)
@@ -277,7 +305,8 @@ def main():
                 "demo_with_change": after("demo with change:", base),
                 "suite_with_change": list(suite[0]) if suite else None,
             },
-            "checks_run": "every check's quick tier against an isolated copy of the harness whose path dependency points at the patched worktree",
+            "checks_run": ("every check's quick tier" if rnd < 8 else "the quick tier of the own property's check and of the checks in whose domain the change falls (listed under caught_by_quick / not_caught_by)") + " against an isolated copy of the harness whose path dependency points at the patched worktree",
+            "not_caught_by": [l.split()[0] for l in txt.splitlines() if re.match(r"C\d\d exit=0 ", l)] if rnd >= 8 else None,
             "caught_by_quick": caught,
             "caught_only_by_thorough": thorough_only,
             "machinery_errors": mach,
